@@ -190,6 +190,8 @@ def run(ctx):
             detail = ''
             if cl == 'fit-raised':
                 detail = ':' + rec['err'].split(':')[0]
+                if 'Unable to compute tau' in rec['err'] or 'Constant column' in rec['err']:
+                    detail += '(degenerate-pseudo-observations)'    # a pseudo-observation column of a deeper tree came out constant (finding F36)
             sig = 'C16|%s|n=%d|%s%s|%s' % (rec['vtype'], rec['n'], cl, detail, rec['src'])
             ctx.violation(sig, '%s for a %s vine on %d columns (truncation %d, %s)' % (cl + detail, rec['vtype'], rec['n'], rec['trunc'], rec['src']),
                           rec)
